@@ -95,9 +95,14 @@ def main():
             inv["module_names"][mod] = sorted(names)
     inv["functions"] = sorted(set(inv["functions"]))
     inv["nested"] = sorted(set(inv["nested"]))
+    # how the confirmed tree passes each argument to each resolvable callee (positionally / by keyword): bsa/normalize.canon_calls
+    os.environ["BSA_FREEZE_CONVENTIONS"] = "1"
+    sys.path.insert(0, os.path.join(os.path.dirname(os.path.abspath(__file__)), "..", ".."))
+    from bsa.loader import Repo
+    inv["call_conventions"] = Repo(root).normalizer.conventions
     out = os.path.join(os.path.dirname(os.path.abspath(__file__)), "..", "..", "reference", "inventory.json")
     json.dump(inv, open(out, "w"), indent=0, sort_keys=True)
-    print("functions", len(inv["functions"]), "modules", len(inv["module_names"]), "classes", len(inv["class_names"]))
+    print("conventions", len(inv["call_conventions"]), "functions", len(inv["functions"]), "modules", len(inv["module_names"]), "classes", len(inv["class_names"]))
 
 
 if __name__ == "__main__":
